@@ -19,7 +19,9 @@ static inline cbor_item_t* load_tree(const unsigned char* D, size_t n) {
 }
 
 /* address census of a tree: item headers and every buffer the item owns */
+#ifndef MAXADDR
 #define MAXADDR 48
+#endif
 struct addrset { const void* a[MAXADDR]; size_t n; };
 static void addr_add(struct addrset* s, const void* p) { if (p != NULL && s->n < MAXADDR) s->a[s->n++] = p; }
 static void addr_collect(const cbor_item_t* it, struct addrset* s) {
